@@ -33,6 +33,11 @@ def shapes():
     S["backcross"] = ([2, 2, 2, 2], [(-1, -1), (-1, -1), (1, 0), (2, 0)], [(1, 1)] * 4, [(0, 0)] * 4, 2)
     S["trio_rev_4_lambda"] = ([4, 4, 4], [(-1, -1), (-1, -1), (1, 0)], [(2, 2)] * 3, [(0, 0), (0, 0), (0.15, 0.3)], 2)
     S["duo_unbalanced"] = ([4, 3], [(-1, -1), (0, -1)], [(2, 2), (2, 1)], [(0, 0), (0, 0)], 3)
+    # a target with two known parents whose own child has an unknown parent (and the reverse): per-trio state must not leak between blanket members
+    S["threegen_duo"] = ([2, 2, 2, 2], [(-1, -1), (-1, -1), (0, 1), (2, -1)], [(1, 1)] * 4, [(0, 0)] * 4, 2)
+    S["threegen_duo_q"] = ([2, 2, 2, 2], [(-1, -1), (-1, -1), (1, 0), (-1, 2)], [(1, 1)] * 4, [(0, 0)] * 4, 2)
+    S["duo_then_trio"] = ([2, 2, 2, 2], [(-1, -1), (0, -1), (-1, -1), (1, 2)], [(1, 1)] * 4, [(0, 0)] * 4, 2)
+    S["threegen_duo_mixed"] = ([4, 4, 4, 3], [(-1, -1), (-1, -1), (0, 1), (2, -1)], [(2, 2), (2, 2), (2, 2), (2, 1)], [(0, 0), (0, 0), (0.1, 0), (0, 0)], 2)
     return S
 
 
